@@ -163,6 +163,66 @@ fn program(serde: bool, tokio: bool, web: bool, crates: &[&str], in_dep: bool) -
     (main, if in_dep { Some(dep) } else { None })
 }
 
+/// Features spread over the entry file and two dependency modules (`m` = entry, `a` / `b` = first / second module the
+/// entry imports): every placement must give the same manifest as having them all in one file.
+fn program_split(place: &str) -> (String, String, String) {
+    let at = |i: usize| place.as_bytes().get(i).copied().unwrap_or(b'-') as char;
+    let (sp, tp, wp) = (at(0), at(1), at(2));
+    let piece = |who: char| -> String {
+        let mut t = String::new();
+        if wp == who {
+            t.push_str("from web import Response\n\n");
+        }
+        if sp == who {
+            t.push_str(&format!("@derive(Serialize)\npub model Item{who}:\n    name: str\n\n"));
+        }
+        if tp == who {
+            t.push_str(&format!("pub async def work{who}() -> int:\n    return 1\n\n"));
+        }
+        if wp == who {
+            t.push_str(&format!("pub def page{who}(p: Response) -> Response:\n    return p\n\n"));
+        }
+        t
+    };
+    let a = format!("{}pub def helper_a() -> int:\n    return 1\n", piece('a'));
+    let b = format!("{}pub def helper_b() -> int:\n    return 2\n", piece('b'));
+    let main = format!("from mod_a import helper_a\nfrom mod_b import helper_b\n{}\ndef main() -> None:\n    print(helper_a() + helper_b())\n", {
+        let p = piece('m');
+        if p.is_empty() { String::new() } else { format!("\n{p}") }
+    });
+    (main, a, b)
+}
+
+fn split_case(out: &mut Out, scratch: &str, place: &str) {
+    let ws = format!("{scratch}/c15b/ws");
+    let outdir = format!("{scratch}/c15b/out");
+    let _ = std::fs::remove_dir_all(format!("{scratch}/c15b"));
+    std::fs::create_dir_all(&ws).expect("mkdir");
+    let (main, a, b) = program_split(place);
+    let main_path = format!("{ws}/app.incn");
+    // the import lines of a module must come first: the web import of the entry file is moved up
+    let main = if main.contains("from web import Response") {
+        format!("from web import Response\n{}", main.replacen("from web import Response\n\n", "", 1))
+    } else { main };
+    std::fs::write(&main_path, &main).expect("write main");
+    std::fs::write(format!("{ws}/mod_a.incn"), a).expect("write a");
+    std::fs::write(format!("{ws}/mod_b.incn"), b).expect("write b");
+    let res = catch(|| incan::cli::commands::build_file(&main_path, Some(&outdir)));
+    let status = match &res {
+        Ok(Ok(_)) => "built".to_string(),
+        Ok(Err(e)) => format!("refused:{}", e.message.lines().next().unwrap_or("").chars().take(80).collect::<String>()),
+        Err(m) => format!("panic {m}"),
+    };
+    let manifest = read_manifest(&format!("{outdir}/Cargo.toml")).unwrap_or_else(|e| e);
+    let cands: Vec<String> = vec!["serde".into(), "serde_json".into(), "tokio".into(), "axum".into(), "incan_stdlib".into(), "incan_derive".into()];
+    let refs = referenced_crates(&outdir, &cands);
+    let has = |i: usize| if place.as_bytes()[i] != b'-' { '1' } else { '0' };
+    out.case(
+        &format!("c15 build app {}{}{} - split:{place} 0", has(0), has(1), has(2)),
+        &format!("{status} | {manifest} | refs={}", if refs.is_empty() { "-".to_string() } else { refs.join(",") }),
+    );
+}
+
 /// External crate roots referred to by `use x::…` / `x::…` in generated sources.
 fn referenced_crates(dir: &str, candidates: &[String]) -> Vec<String> {
     let mut found = std::collections::BTreeSet::new();
@@ -453,6 +513,15 @@ pub fn run(out: &mut Out, tier: &str, seed: u64, scratch: &str) {
         build_case(out, scratch, "app", sd, tk, false, &["rand"], true, 0);
     }
     build_case(out, scratch, "app", false, true, false, &["serde_json", "tokio"], false, 0);
+    // every placement of the three features over the entry file and two dependency modules (27 + absent ones)
+    for sp in ['m', 'a', 'b', '-'] {
+        for tp in ['m', 'a', 'b', '-'] {
+            for wp in ['m', 'a', 'b', '-'] {
+                if [sp, tp, wp].iter().all(|c| *c == 'm' || *c == '-') { continue; } // single-file cases are above
+                split_case(out, scratch, &format!("{sp}{tp}{wp}"));
+            }
+        }
+    }
     for name in ["my-prog", "my_prog", "a1", "prog2", "x"] {
         build_case(out, scratch, name, true, false, false, &["rand"], false, 0);
     }
